@@ -534,7 +534,7 @@ func TestC04(t *testing.T) {
 	var corpus []wireBody
 	Bubble(t, func() {
 		for _, w := range captureCorpus(thorough) {
-			if !w.KnownLength && !strings.Contains(w.Name, "kilobyte") { // cut bodies contradict an announced length; the kilobyte bodies are C03's
+			if !w.KnownLength && !strings.Contains(w.Name, "kilobyte") && !strings.Contains(w.Name, "many-small") { // cut bodies contradict an announced length; the kilobyte bodies are C03's
 				corpus = append(corpus, w)
 			}
 		}
